@@ -14,6 +14,7 @@ import Sqroot.Model.Search
 import Sqroot.Model.Positions
 import Sqroot.Model.Printer
 import Sqroot.Model.Fprint
+import Sqroot.Model.EndToEnd
 import Sqroot.Model.Ctor
 namespace Sqroot.Driver
 open Sqroot.Model
@@ -400,8 +401,19 @@ def modelStmt (ver : Version) (mn : MNum) (st : MSt) (s : Stmt) : String × MSt 
     | some (.h3 v) =>
       if finiteOnly ∧ !v.assertsFiniteSeq then ("na", st) else
       let fin := isFinite3 st.memo v
-      let feed := feed3 c st.memo v (if fin then allTake else 12000)
-      (findAnswer op true pat n feed fin, unknownMemo st)
+      let bound := if fin then allTake else 12000
+      let feed := feed3 c st.memo v bound
+      -- the lazy searches that STOP at their answer: the memoizer state afterwards is the one of
+      -- `findFirstN3` (theorem findFirstN_stops_at_answer_end_to_end) — exact consult counter
+      let st' : MSt :=
+        if op == "ff" || op == "ffn" || op == "m" || op == "m2" then
+          let k : Nat := if op == "ff" then 1 else n.toNat
+          if k = 0 then st                      -- v3: nothing is ranged over
+          else match findFirstN3 c st.memo v pat k bound with
+            | .ok (m', ms, _) => if ms.length = k then { st with memo := m' } else unknownMemo st
+            | .error _ => unknownMemo st
+        else unknownMemo st
+      (findAnswer op true pat n feed fin, st')
     | some (.h12 v) =>
       if op == "m" ∨ op == "m2" ∨ op == "bm" then ("na", st) else
       let fin := isFinite12 st.memo v
